@@ -1752,6 +1752,7 @@ def coq_crosscheck(urls, times, tag="C20"):
         trows.append("  (%s, %d, (%d)%%Z)" % (coq_str(t), code, val))
         tkept.append((t, code, val))
     os.makedirs(common.WORK, exist_ok=True)
+    tag = "%s_p%d" % (tag, os.getpid())      # one file per process (checks of the property may run side by side)
     vfile = os.path.join(common.WORK, "cases_%s.v" % tag)
     with open(vfile, "w") as fh:
         fh.write("From Coq Require Import List NArith ZArith.\nImport ListNotations.\n"
